@@ -287,12 +287,12 @@ Definition c03_pair (rf0 : nat) (prev : obs) (a b : event) (cur : obs) : bool :=
   && match a, b with
      | Write _ _ _ fs1, Write wid2 _ _ _ =>
          let left := filter (fun p => negb (flt fs1 (fst p) KWrite || flt fs1 (fst p) KWriteAp)) (o_replicas prev) in
-         if quorum_ok rf0 (o_replicas prev) && negb (quorum_ok rf0 left)
+         if quorum_ok rf0 (o_replicas prev) && io_in_range prev a && negb (quorum_ok rf0 left)
          then negb (is_ack cur) && forallb (fun x => negb (holds cur x wid2)) (seq 0 (length (o_reps cur)))
          else true
      | Write _ _ _ fs1, Sync _ | Write _ _ _ fs1, Unmap _ =>
          let left := filter (fun p => negb (flt fs1 (fst p) KWrite || flt fs1 (fst p) KWriteAp)) (o_replicas prev) in
-         if quorum_ok rf0 (o_replicas prev) && negb (quorum_ok rf0 left) then negb (is_ack cur) else true
+         if quorum_ok rf0 (o_replicas prev) && io_in_range prev a && negb (quorum_ok rf0 left) then negb (is_ack cur) else true
      | _, _ => true
      end.
 
@@ -312,11 +312,24 @@ Definition c13_pair (rf0 : nat) (prev : obs) (a b : event) (cur : obs) : bool :=
 
 (** C04 / C05: a read queued behind a write that detaches replicas is served by a replica that is still
     listed RW afterwards *)
+(* "was RW before" unless the first request promotes that replica; "did not fail the first request" only when
+   that request is an I/O that reached the replicas *)
+Definition promotes (prev : obs) (a : event) (x : addr) : bool :=
+  match a with
+  | Verify y _ => Nat.eqb y x
+  | SetMode y RW => Nat.eqb y x
+  | Start _ _ => Nat.eqb (length (o_replicas prev)) 0
+  | _ => false
+  end.
+
 Definition c04_pair (rf0 : nat) (prev : obs) (a b : event) (cur : obs) : bool :=
   match b with
   | Read _ _ _ _ =>
       match o_served cur with
-      | Some x => mem x (rw_of (o_replicas prev)) && negb (io_kind_fail a x)
+      | Some x =>
+          (mem x (rw_of (o_replicas prev)) || promotes prev a x)
+          && (if is_io a && quorum_ok rf0 (o_replicas prev) && io_in_range prev a
+              then negb (io_kind_fail a x) else true)
       | None => true
       end
   | _ => true
